@@ -157,6 +157,10 @@ class FrameDomain:
                 self.report("store", node, f"stores {val} into {recv}")
         return val if isinstance(val, (Pt, Vec, Quat)) else recv
     def method(self, recv, name, args, kwargs, node):
+        if isinstance(recv, Seq) and recv.kind == "py" and name in ("append", "extend") and args:
+            # a local python list that collects per-group results: remember what it holds
+            recv.items.extend(args[0].items if (name == "extend" and isinstance(args[0], Seq)) else [args[0]])
+            return Const(None)
         if isinstance(recv, Rot):
             if name == "inv": return Rot(recv.to, recv.frm)
             if name == "as_quat": return Quat(recv.frm, recv.to)
